@@ -182,7 +182,7 @@ class dns(packet_base):
     def hdr (self, payload):
         bits0 = 0
         if self.qr: bits0 |= 0x80
-        bits0 |= (self.opcode & 0x7) << 4
+        bits0 |= (self.opcode & 0xf) << 3
         if self.rd: bits0 |= 1
         if self.tc: bits0 |= 2
         if self.aa: bits0 |= 4
@@ -282,7 +282,7 @@ class dns(packet_base):
              = struct.unpack('!HBBHHHH', raw[:12])
 
         self.qr = True if (bits0 & 0x80) else False
-        self.opcode = (bits0 >> 4) & (0x07)
+        self.opcode = (bits0 >> 3) & (0x0f)
         self.aa     = True if (bits0 & (0x04)) else False
         self.tc     = True if (bits0 & (0x02)) else False
         self.rd     = True if (bits0 & (0x01)) else False
